@@ -246,7 +246,11 @@ func (x *Exec) designatorFamilies(d string, names []string, typs []types.Type) (
 		el := t.Underlying().(*types.Pointer).Elem()
 		switch kindOf(el) {
 		case KStruct:
-			return familiesOf(RStruct, el), false
+			out := append([]Family{}, familiesOf(RStruct, el)...)
+			if dualTypes[typeName(el)] {
+				out = append(out, familiesOf(RElem, el)...)
+			}
+			return out, false
 		case KBig:
 			return nil, true
 		default:
@@ -269,7 +273,11 @@ func (x *Exec) designatorFamilies(d string, names []string, typs []types.Type) (
 			panic("modifies: no field in " + d)
 		}
 		off, n, _ := fieldRange(p.Elem(), idx)
-		return familiesOf(RStruct, p.Elem())[off : off+n], false
+		out := append([]Family{}, familiesOf(RStruct, p.Elem())[off:off+n]...)
+		if dualTypes[typeName(p.Elem())] {
+			out = append(out, familiesOf(RElem, p.Elem())[off:off+n]...)
+		}
+		return out, false
 	}
 	panic("modifies: cannot interpret designator " + d)
 }
@@ -415,7 +423,7 @@ func (x *Exec) inline(fr *Frame, ci *calleeInfo, args []*Sym, reach *Term, st *S
 	for i := 0; i < nres; i++ {
 		v := exits[len(exits)-1].res[i]
 		for j := len(exits) - 2; j >= 0; j-- {
-			v = iteSym(exits[j].reach, exits[j].res[i], v)
+			v = x.mergeSyms(exits[j].reach, exits[j].res[i], v)
 		}
 		res = append(res, x.vc.nameSym("ret."+fn.Name(), v))
 	}
